@@ -74,7 +74,47 @@ def bounded_cmd(tier, seed):
             "failures": failures, "samples": [{"strip_carets": b'a^\r\nb"^"'.hex()}]}
 
 
-BOUNDED = [bounded_cmd]
+def bounded_encoded_command(tier, seed):
+    """PowerShell invocations made of value-less switches followed by an encoded-command switch (any prefix of
+    -encodedcommand): the value is the invocation with that switch and its argument replaced by -Command and the UTF-16
+    decoding of the base64 text (a byte-order mark, if any, selects the byte order and is consumed)."""
+    import base64
+    import codecs
+    import random
+
+    from multidecoder.decoders import shell
+
+    rng = random.Random(seed)
+    failures, n, distinct = [], 0, set()
+    texts = ["echo bee", "Write-Host 1", "ab", "\u00e9t\u00e9 x", "iex (x)"]
+    encs = [("utf-16-le", b""), ("utf-16-le", codecs.BOM_UTF16_LE), ("utf-16-be", codecs.BOM_UTF16_BE)]
+    full = "encodedcommand"
+    for text in texts:
+        for codec, bom in encs:
+            for k in (1, 2, 3, 7, len(full)):
+                for sw in ([], ["-nop"], ["-NoP", "-noni"]):
+                    raw = bom + text.encode(codec)
+                    b64 = base64.b64encode(raw)
+                    if len(b64) < 4:
+                        continue
+                    inv = b" ".join([b"powershell"] + [s_.encode() for s_ in sw] + [b"-" + full[:k].encode(), b64])
+                    data = b"x = " + inv
+                    n += 1
+                    distinct.add(data)
+                    want = b" ".join([b"powershell"] + [s_.encode() for s_ in sw]) + b" -Command " + raw.decode("utf-16", "ignore").encode()
+                    try:
+                        hits = shell.find_powershell_strings(data)
+                    except Exception as e:  # noqa: BLE001
+                        hits = []
+                        want = f"no exception ({type(e).__name__}: {e})"
+                    got = [h.value for h in hits if h.obfuscation == "powershell.base64"]
+                    if got != [want] and len(failures) < 4:
+                        failures.append({"id": f"encoded-command value ({codec}, bom={bool(bom)})", "function": "multidecoder.decoders.shell.find_powershell_strings", "obligation": "bounded/encoded-command",
+                                         "case": {"encoded_command": data.hex(), "want": want.hex() if isinstance(want, bytes) else str(want)}, "observed": f"{data!r}: values {got!r}, expected [{want!r}]"})
+    return {"evaluations": n, "distinct_nontrivial": len(distinct), "scope": "5 texts x {no BOM, LE BOM, BE BOM} x 5 switch spellings x 3 switch prefixes", "failures": failures, "samples": [{"encoded_command": b"x = powershell -e ZQBjAGgAbwA=".hex()}]}
+
+
+BOUNDED = [bounded_cmd, bounded_encoded_command]
 
 
 def replay(case):
@@ -89,6 +129,11 @@ def replay(case):
             return False, f"{type(e).__name__}: {e}"
         want = caret_from(cmd, 0, False)
         return got == want, f"strip_carets({cmd!r}) = {got!r}, reference {want!r}"
+    if "encoded_command" in case:
+        data = bytes.fromhex(case["encoded_command"])
+        got = [h.value for h in shell.find_powershell_strings(data) if h.obfuscation == "powershell.base64"]
+        want = bytes.fromhex(case["want"])
+        return got == [want], f"values {got!r}, expected [{want!r}]"
     if "find_cmd" in case:
         r = bounded_cmd("quick", 0)
         data = bytes.fromhex(case["find_cmd"])
